@@ -22,7 +22,7 @@ ASSUMPTIONS = ["exact rational arithmetic (fractions) for all predicates", "quer
 FLOORS = {'quick': {'ray-status': 1500, 'ray-params': 500, 'is_left': 1500, 'wn_poly': 5000, 'hull': 300, 'voxel-fill': 1500,
                     'voxel-cover': 500, 'find_ctrlpts': 300},
           'thorough': {'ray-status': 15000, 'wn_poly': 50000, 'hull': 3000, 'voxel-fill': 15000}}
-MANDATORY_TAGS = ['vox:lattice', 'vox:padding=0.0', 'ray:cross2d', 'ray:cross3d', 'ray:parallel', 'ray:coincident', 'ray:skew', 'vox:planar-axis-aligned', 'vox:padding', 'ray:near-parallel', 'is_left:near-collinear', 'hull:float-near-collinear', 'ray:generic-cross2d', 'ray:generic-cross3d', 'ray:coords<=1000', 'ray:scale=2^-24', 'ray:scale=2^20', 'poly:star', 'poly:orthogonal',
+MANDATORY_TAGS = ['ray:shared-far-end', 'vox:lattice', 'vox:padding=0.0', 'ray:cross2d', 'ray:cross3d', 'ray:parallel', 'ray:coincident', 'ray:skew', 'vox:planar-axis-aligned', 'vox:padding', 'ray:near-parallel', 'is_left:near-collinear', 'hull:float-near-collinear', 'ray:generic-cross2d', 'ray:generic-cross3d', 'ray:coords<=1000', 'ray:scale=2^-24', 'ray:scale=2^20', 'poly:star', 'poly:orthogonal',
                   'poly:cw', 'poly:ccw', 'hull:collinear', 'vox:surface', 'vox:volume', 'vox:cubes', 'find:unnormalized']
 TECHNIQUE = ("runtime monitoring: exact-arithmetic oracles (orientation, crossing parity, definitional hull test, exact line "
              "intersection, point-in-box) on every predicate / query call of a constructed-class workload")
@@ -223,7 +223,7 @@ def check_rays_generic(case, ctx):
         dim = rng.choice([2, 3])
         M = rng.choice([10, 100, 1000])
         sc = 2.0 ** rng.choice([0, 0, 0, -24, -10, 10, 20])
-        cls = rng.choice(['cross-int', 'cross-int', 'generic', 'skew', 'coincident', 'near-parallel', 'near-parallel'])
+        cls = rng.choice(['cross-int', 'cross-int', 'generic', 'skew', 'coincident', 'near-parallel', 'near-parallel', 'shared-far-end'])
 
         def P(m=M):
             return [rng.randint(-m, m) for _ in range(dim)]
@@ -248,6 +248,16 @@ def check_rays_generic(case, ctx):
             if any(F(u_) + F(v_) != F(u_ + v_) for u_, v_ in zip(a, d1)) or any(F(u_) + F(v_) != F(u_ + v_) for u_, v_ in zip(c, d2)) or \
                     any(F(x) - F(k2) * F(e) != F(cc) for x, e, cc in zip(X, d2, c)) or any(F(x) - F(k1) * F(e) != F(aa) for x, e, aa in zip(X, d1, a)):
                 continue          # (keep only data where every end point is exactly what the construction says)
+        elif cls == 'shared-far-end':
+            # two rays from ordinary decimal points near the origin to ONE far point (both are given by their end points, so they cross
+            # there exactly, at t1 = t2 = 1, whatever the rounding of the directions)
+            L_ = rng.choice([1e2, 1e3, 1e4])
+            a = [round(rng.uniform(-1, 1), 3) for _ in range(dim)]
+            c = [round(rng.uniform(-1, 1), 3) for _ in range(dim)]
+            X = [round(rng.uniform(0.3, 1.0) * L_ * rng.choice([-1, 1]), 1) + 0.1 for _ in range(dim)]
+            b, d = list(X), list(X)
+            if a == c:
+                continue
         elif cls == 'cross-int':
             X = P()
             d1, d2 = P(max(2, M // 10)), P(max(2, M // 10))
@@ -313,6 +323,8 @@ def check_rays_generic(case, ctx):
         ctx.tag(('ray:generic-cross%dd' % dim) if exp == RI.INTERSECT else 'ray:skew')
         if cls == 'near-parallel':
             ctx.tag('ray:near-parallel')
+        if cls == 'shared-far-end':
+            ctx.tag('ray:shared-far-end')
         if not ctx.check(st == exp, 'ray/status', '%s: status %r, exact arithmetic says %r' % (desc, st, exp), what='ray-status'):
             continue
         if exp == RI.INTERSECT:
